@@ -12,7 +12,7 @@ ON(o) == CASE o = o1 -> 1 [] o = o2 -> 2 [] OTHER -> 0
 MovedSet == { p \in Procs : pc[p] # pc'[p] \/ loc[p] # loc'[p] }
 \* (a reader that consumes an undecodable datagram comes back to the same gate with the same locals)
 Mover == IF X \in MovedSet THEN X
-         ELSE IF MovedSet = {} THEN (IF inbox # None /\ inbox' = None THEN RD ELSE "env")
+         ELSE IF MovedSet = {} THEN (IF inbox # None /\ inbox' = None THEN RD ELSE IF idleLeft' # idleLeft THEN CL ELSE "env")
          ELSE CHOOSE p \in MovedSet : TRUE
 
 Label ==
@@ -40,10 +40,10 @@ Key(cl, cc, co, t, a, ac, al, ob, ck, pcv, lc, ib, f, r, j, ws, hc, rt, fb, en, 
 
 PrintEdge ==
   PrintT("EDGE " \o ToJson(
-    [f |-> << Key(closed, closeChan, connCloses, ct, at, aclosed, alock, obj, clock, pc, loc, inbox, fails, resps, junk, wsucc, hcalls, ret, fbcalls, ended, rto, rtoBudget),
+    [f |-> << Key(closed, closeChan, connCloses, ct, at, aclosed, alock, obj, clock, pc, loc, inbox, fails, resps, junk, wsucc, hcalls, ret, fbcalls, ended, rto, rtoBudget + 10 * idleLeft),
               [o \in Objs |-> ObjJ(o)], [p \in Procs |-> LocJ(loc[p])] >>,
      a |-> Label,
-     t |-> << Key(closed', closeChan', connCloses', ct', at', aclosed', alock', obj', clock', pc', loc', inbox', fails', resps', junk', wsucc', hcalls', ret', fbcalls', ended', rto', rtoBudget'),
+     t |-> << Key(closed', closeChan', connCloses', ct', at', aclosed', alock', obj', clock', pc', loc', inbox', fails', resps', junk', wsucc', hcalls', ret', fbcalls', ended', rto', rtoBudget' + 10 * idleLeft'),
               [o \in Objs |-> [id |-> IF obj'[o].id = None THEN "" ELSE obj'[o].id, a |-> obj'[o].attempt, c |-> obj'[o].calls,
                                w |-> IF obj'[o].owner = None THEN "" ELSE PN(obj'[o].owner), f |-> obj'[o].free, r |-> obj'[o].reg, q |-> obj'[o].prev, x |-> obj'[o].rto]],
               [p \in Procs |-> LocJ(loc'[p])] >>]))
